@@ -35,7 +35,12 @@ Two layers:
     faults.  Every operation is a composition of micro steps (`Aux.step_mstar`).
 
 `log` is a ghost trace (newest first) of what happened; the properties are stated on it.
+
+How the two `concurrent.futures.wait` calls are written in the source (what is waited for, `return_when`,
+`timeout`) is read from data_server.py by the translator (`Gen/DataServerWait.lean`); the purge arm's wait
+enters the model through `purgeWaitBlocks` / `purgeWait`.
 -/
+import EkwVerif.Gen.DataServerWait
 namespace EkwVerif.Transfer
 
 structure Cmd where
@@ -472,7 +477,36 @@ def recvAll (h : Nat) : Nat → World → World
     let r := recvOne h w
     if r.2 then recvAll h fuel r.1 else r.1
 
-/-- the `for m in messages` loop. A purge first waits for all futures and cleans. -/
+/-- The purge arm calls `wait(<futures>, return_when=ALL_COMPLETED)` with no `timeout` (read from the source:
+`Gen/DataServerWait.lean`): only such a call blocks until every future handed to it has finished.  (WHICH futures
+are handed to it — all of `futs_in_progress` — is an expression the translator only records; the tie observes it at
+run time: the fake `wait` notes whether the awaited set is all of `futs_in_progress`, and a call that waits for
+fewer leaves jobs the model has finished.) -/
+def purgeWaitBlocks : Bool :=
+  Gen.DataServerWait.purgeWaitReturnWhen == "ALL_COMPLETED" &&
+  Gen.DataServerWait.purgeWaitTimeoutMs.isNone
+
+/-- `maybe_clean` calls `wait(<futures>, return_when=FIRST_COMPLETED)` with no `timeout`:
+what `maybeClean` models (one pending job, chosen by the scheduler oracle, is run to its end). -/
+def cleanWaitAsModelled : Bool :=
+  Gen.DataServerWait.cleanWaitReturnWhen == "FIRST_COMPLETED" &&
+  Gen.DataServerWait.cleanWaitTimeoutMs.isNone
+
+/-- the wait of the purge arm, its blocking behaviour a parameter.  A blocking wait has the pool run every pending
+job to its end (`waitAll`).  Any other call — a `timeout`, FIRST_COMPLETED, a subset of the futures, no call — may
+return with every pending job still running (jobs that need longer than the timeout): that worst case is the
+model; the clock then moves on by `timeoutMs`. -/
+def purgeWaitWith (blocks : Bool) (timeoutMs : Option Nat) (h : Nat) (fuel : Nat) (sched : List Nat) (w : World) :
+    World × List Nat :=
+  if blocks then waitAll h fuel sched w
+  else if nPending (w.hosts h).futs = 0 then (w, sched)
+  else ({ w with now := w.now + timeoutMs.getD 0 }, sched)
+
+/-- the wait of the purge arm as the source has it -/
+def purgeWait (h : Nat) (fuel : Nat) (sched : List Nat) (w : World) : World × List Nat :=
+  purgeWaitWith purgeWaitBlocks Gen.DataServerWait.purgeWaitTimeoutMs h fuel sched w
+
+/-- the `for m in messages` loop. A purge first waits for the futures (`purgeWait`) and cleans. -/
 def handleAll (h : Nat) : Nat → List Nat → World → World × List Nat
   | 0, sched, w => (w, sched)
   | fuel + 1, sched, w =>
@@ -481,7 +515,7 @@ def handleAll (h : Nat) : Nat → List Nat → World → World × List Nat
     match hs.inbox with
     | [] => (w, sched)
     | .purge _ :: _ =>
-      let r1 := waitAll h hs.futs.length sched w
+      let r1 := purgeWait h hs.futs.length sched w
       let r2 := mclean h r1.2 r1.1
       handleAll h fuel r2.2 (handleHead h r2.1)
     | _ :: _ => handleAll h fuel sched (handleHead h w)
